@@ -283,6 +283,23 @@ func init() {
 		e.tickEpoch++
 		return nil
 	}
+	intrinsics[vrt+"WaitFor"] = func(e *Engine, fr *frame, fn *ssa.Function, args []Value) Value {
+		p := args[0].(*Value)
+		set := func() bool {
+			t, ok := (*p).(*Term)
+			return ok && t.IsConst() && t.SVal() != 0
+		}
+		if e.th == nil || !e.job.Threads {
+			if !set() {
+				panic(unsupported("verifrt.WaitFor outside thread mode on an unset flag"))
+			}
+			return nil
+		}
+		e.yield("verifrt.WaitFor")
+		e.blockUntil("verifrt.WaitFor", set)
+		e.atomicAccess(p, false)
+		return nil
+	}
 	intrinsics[vrt+"Settle"] = func(e *Engine, fr *frame, fn *ssa.Function, args []Value) Value {
 		e.settle()
 		return nil
